@@ -13,7 +13,7 @@ RULE = ("every sequence of length N over N symbols (every multiplicity pattern i
 ASSUMPTIONS = ["int/int true division is correctly rounded, so equality with float(Fraction) is exact",
                "table cells never contain the join characters '.' or '_' (outside the property); missing is spelled either '' or None/NaN, one spelling per table",
                "a 2-tuple is the legacy (alpha, beta) form and is not used as a plain sample container"]
-REQUIRED_CLASSES = {"all": ["reordering", "relabelling", "table-missing-cell", "table-collision-without-separator", "two-sample", "legacy-tuple", "two-table", "negative-int-cells", "tuple-or-mixed-type-elements"]}
+REQUIRED_CLASSES = {"all": ["reordering", "relabelling", "table-missing-cell", "table-collision-without-separator", "two-sample", "legacy-tuple", "two-table", "two-table-mixed-missing-spelling", "negative-int-cells", "tuple-or-mixed-type-elements"]}
 MIN_OUTCOMES = 8
 
 LABELS = {
@@ -66,12 +66,20 @@ def spaces(tier):
                 for t1 in itertools.product(rows, repeat=n1):
                     for t2 in itertools.product(rows, repeat=n2):
                         yield ("tables2", types, t1, t2)
+        # a column that is missing throughout (e.g. an unsequenced chain): float64 when spelled NaN, object when spelled None / ''
+        types = ("t3", "m")
+        rows = list(itertools.product(TEXT3, (None,)))
+        for n1 in (1, 2):
+            for n2 in (1, 2):
+                for t1 in itertools.product(rows, repeat=n1):
+                    for t2 in itertools.product(rows, repeat=n2):
+                        yield ("tables2", types, t1, t2)
 
     return [
         Space("all-sequences-N-over-N", gen_seq, "every sequence of length N over N symbols, N=2..6 (quick) / 2..7 (thorough) x 4 relabellings x {list, ndarray, Series}; pc, pc_n", shards=32),
         Space("all-sample-pairs", gen_pairs, "all (a,b), |a|,|b| <= 4 over 3 symbols (quick) / <= 5 over 4 symbols (thorough); one case = one a against every b"),
         Space("all-small-tables", gen_tables, "tables of 2..4 rows x 1..3(4) typed columns over text cells {A,AB,BA,empty} / {A,AB,empty} and integer cells {1,11}; empty spelled '' / None / NaN", shards=32),
-        Space("all-small-table-pairs", gen_two_tables, "pairs of 1..2(3)-row tables over (text{A,AB,empty}, int{1,11})"),
+        Space("all-small-table-pairs", gen_two_tables, "pairs of 1..2(3)-row tables over (text{A,AB,empty}, int{1,11}) and (text, always-missing column); every pair of spellings of 'missing' (None, '', NaN) across the two tables"),
     ]
 
 
@@ -303,8 +311,11 @@ def _check_tables2(acc, case):
     exp = ref_pc2(t1, t2)
     has_missing = any(v is None for row in t1 + t2 for v in row)
     cols = ["c%d" % i for i in range(len(types))]
-    for sp in (("none", "empty-string") if has_missing else ("none",)):
-        d1, d2 = _mk(types, t1, sp), _mk(types, t2, sp)
+    # the two tables need not spell 'missing' the same way (None / '' / NaN, which also changes the column dtype)
+    for sp, sp2 in (tuple(itertools.product(("none", "empty-string", "nan"), repeat=2)) if has_missing else (("none", "none"),)):
+        if sp != sp2:
+            acc.cls("two-table-mixed-missing-spelling")
+        d1, d2 = _mk(types, t1, sp), _mk(types, t2, sp2)
         r = acc.call(pyrepseq.pc, d1, d2)
         if not _exact(r, exp):
             acc.fail("pc/two-tables", case, exp, r)
